@@ -333,6 +333,7 @@ func run(c *ev.Ctx) {
 		dbase := db.NewMapDB()
 		tl := transaction.NewTransactionListFromSlice(dbase, txs)
 		c.Count("tx_lists", 1)
+		c.Eval(6) // seven list views are evaluated per size: tx fresh/flushed/reloaded/v1, receipts fresh/flushed/reloaded
 		ok := checkTxList(c, r, txView{"fresh", tl}, txs)
 		h := tl.Hash()
 		if ok {
